@@ -17,6 +17,20 @@ concatenate([t,u]) / ([u,t]) / ([t,t]) / ([t,u,t]), swap t<->u, replace(t, f=arr
 t.f = array, tolist, iter, str, write}; after the last step a full observation (len, every field in declaration
 order, tolist, written bytes) is compared as well.  Longer programs are sampled with col.rng.
 
+Retained intermediate tables.  The programs above are linear (every op is applied to the current table, only the
+final table is observed).  A public op that derives a NEW table (replace, indexing, concatenate) must also leave the
+OLD one equal to its eager counterpart, so a second family keeps references: ["keep"] retains the current table,
+["swapk"] goes on with the table retained last (and retains the derived one instead); after the last op every
+retained table that is no longer the current one gets the full observation too (len, every field, tolist, written
+bytes; lazy == eager or both fail - the same oracle).  Enumerated (run_retained / plan_retained): per ordered pair
+(f1, f2) of replaceable fields - every ordered pair for some formats, the representatives of the field kinds or one
+representative pair for the others - t1 made by replace(f1) / t.f1 = v (with fields parsed before / after, after
+tolist, after write), retained, then replace(f2) / replace(f1) again / t1[slice | mask | int list] /
+concatenate([t1, t1]) / write(t1[1:]) followed by assignments to the new or (swapk) to the old table; chains of
+three replaces with different fields with every link retained; sampled longer programs with keeps (thorough).
+A divergence of a retained table that the table's own history (the ops applied to that object itself, as a linear
+program) shows as well is left to that linear program; the others get <place> = retained:observe / retained:write.
+
 Signatures.  A failing program is delta-minimised (ops deleted while the same divergence remains; each remaining op
 named by its most canonical variant that keeps the divergence) and the signature is
     <format>:<minimal program shape>[:chunked-only]=><place>:<divergence>
@@ -1247,7 +1261,11 @@ def run(tier="quick", seed=0):
                     "(plus the 4-op family [X, swap, Y, concatenate] with state on both operands) over the "
                     "stated alphabet, run in lock-step on lazy=True and lazy=False reads of the same file; every step and a "
                     "final full observation (len, every field, tolist, written bytes) compared; per format x {whole read, "
-                    "chunked read}; longer programs sampled with the seed.  distinct = distinct (format, read mode, "
+                    "chunked read}; longer programs sampled with the seed.  Retained tables: programs with keep "
+                    "(retain the current table) / swapk (go on with the retained one) - t1 made by replace / assignment of "
+                    "f1, retained, then replace f2 / index / concatenate / write of tables derived from it and assignments "
+                    "to either, chains of 3 replaces - over ordered pairs / triples of replaceable fields; every retained "
+                    "table gets the full observation after the last op.  distinct = distinct (format, read mode, "
                     "program); non-trivial = program of length >= 1",
                     budget_s=(62 if tier == "quick" else 585))
     import logging
